@@ -1,4 +1,5 @@
 """Path state of the symbolic interpreter: path condition, heap, decisions, obligations."""
+import os
 import time
 import z3
 from .values import *
@@ -124,6 +125,15 @@ class State:
         # it answers at once where nonlinear clutter makes the other two wander (e.g. "is the sum of the weights zero?")
         self.lin = z3.Solver()
         self.lin.set('timeout', 2000)
+        # abstraction solver: every quantifier-free fact with its nonlinear subterms (products / quotients of non-constants,
+        # powers, radicals) replaced by opaque constants.  Weaker than the path condition, so `unsat` there is `unsat`
+        # here; `sat` there means "explore the branch" (exploring an infeasible branch is sound for proofs).  Used for
+        # path feasibility once the path condition is nonlinear: z3's nonlinear solver needs 5-20 s per branch query on
+        # e.g. Powell's extrapolation test, and does not honour its timeout.
+        self.abs = z3.Solver()
+        self.abs.set('timeout', 2000)
+        self._abs_memo = {}
+        self.nonlinear = False
         self.timeout_ms = timeout_ms
         self.pc = []
         self.heap = Heap()
@@ -200,22 +210,35 @@ class State:
             self.light.add(cond)
             if is_linear(cond):
                 self.lin.add(cond)
+                self.abs.add(cond)
+            else:
+                self.nonlinear = True
+                self.abs.add(self._abstract(cond))
+
+    def _abstract(self, t):
+        from .algebra import _abstract
+        return _abstract(t, self._abs_memo)
 
     def push(self, *conds):
         self.solver.push()
         self.light.push()
         self.lin.push()
+        self.abs.push()
         for c in conds:
             self.solver.add(c)
             if not has_quantifier(c):
                 self.light.add(c)
                 if is_linear(c):
                     self.lin.add(c)
+                    self.abs.add(c)
+                else:
+                    self.abs.add(self._abstract(c))
 
     def pop(self):
         self.solver.pop()
         self.light.pop()
         self.lin.pop()
+        self.abs.pop()
 
     def _check_light(self, extra):
         t0 = time.time()
@@ -239,7 +262,7 @@ class State:
         self.n_queries += 1
         return r
 
-    def feasible(self, cond):
+    def feasible(self, cond, exact=False):
         """is pc /\\ cond satisfiable?  unknown counts as feasible (sound for proofs)."""
         if has_quantifier(cond):
             return self._check(cond) != z3.unsat
@@ -253,6 +276,29 @@ class State:
             self.n_queries += 1
             if rl == z3.unsat:
                 return False
+        if self.nonlinear or not is_linear(cond):
+            t0 = time.time()
+            self.abs.push()
+            self.abs.add(self._abstract(cond))
+            ra = self.abs.check()
+            self.abs.pop()
+            self.solver_secs += time.time() - t0
+            self.n_queries += 1
+            if ra == z3.unsat:
+                return False
+            if ra == z3.sat:
+                # feasible in the abstraction: give the exact solver a short chance to refute it, then explore
+                # feasible in the abstraction.  Ordinary branches are simply explored (sound: an infeasible branch proves its
+                # obligations vacuously); guards whose 'wrong' side the interpreter cannot execute at all (sqrt of a
+                # negative number ...) ask for the exact solver (exact=True)
+                if not exact:
+                    return True
+                self.light.set('timeout', 2000)
+                try:
+                    r = self._check_light(cond)
+                finally:
+                    self.light.set('timeout', 4000)
+                return r != z3.unsat
         r = self._check_light(cond)
         if r == z3.unknown:
             r = self._check(cond)      # the light solver timed out (loaded machine): ask the full one
@@ -275,7 +321,7 @@ class State:
             return False
         return True
 
-    def branch(self, cond):
+    def branch(self, cond, exact=False):
         """cond: z3 Bool.  Returns the python bool taken on this path."""
         cond = z3.simplify(cond)
         if z3.is_true(cond):
@@ -302,12 +348,12 @@ class State:
                     self.decisions.append(val)
                     self.assume(cond if val else z3.Not(cond))
                     return val
-        ft = self.feasible(cond)
+        ft = self.feasible(cond, exact)
         # if one side is refuted the other one is taken without asking whether it is satisfiable: on a feasible path
         # it must be, and exploring an infeasible path is sound for proofs (refutations need a model anyway).  This
         # avoids the expensive direction -- finding a model of a nonlinear path condition -- for guards such as
         # `denominator == 0` that are plainly excluded
-        ff = self.feasible(z3.Not(cond)) if ft else True
+        ff = self.feasible(z3.Not(cond), exact) if ft else True
         if ft and ff:
             self.alternatives.append(self.decisions + [False])
             self.decisions.append(True)
